@@ -1257,6 +1257,211 @@ def probe_positions(ctx, gs, rng, reps):
                 break
 
 
+def _hist_positions(rng, family, fdim, structured, stored=None):
+    """positions for the general history probe: (pos tuple, mesh type); lat-lon models get degrees"""
+    if family == "latlon":
+        lo, hi = [-80.0, -170.0, 0.0][:fdim], [80.0, 170.0, 20.0][:fdim]
+    else:
+        off = float(rng.choice([0.0, 0.0, 4.0e5]))
+        lo, hi = [off - 8.0] * fdim, [off + 8.0] * fdim
+    if structured:
+        return tuple(np.sort(rng.uniform(lo[d], hi[d], int(rng.integers(1, 5)))) for d in range(fdim)), "structured"
+    n = int(rng.integers(1, 8))
+    return tuple(rng.uniform(lo[d], hi[d], n) for d in range(fdim)), "unstructured"
+
+
+def _hist_model(gs, rng, kind, family, nug):
+    if family == "latlon":
+        temporal = bool(rng.random() < 0.4)
+        kw = dict(latlon=True, geo_scale=float(rng.choice([1.0, 57.3, 6371.0])), var=float(rng.choice(VAR)),
+                  len_scale=float(rng.choice([0.3, 1.0])) , nugget=nug)
+        if temporal:
+            kw.update(temporal=True, anis=[float(rng.choice([0.5, 2.0]))])
+        return getattr(gs, str(rng.choice(CLS_PPF)))(**kw)
+    if family == "temporal":
+        sd = int(rng.integers(1, 3))
+        return getattr(gs, str(rng.choice(CLS_PPF)))(temporal=True, spatial_dim=sd, var=float(rng.choice(VAR)), len_scale=float(rng.choice(LEN)),
+                                                     nugget=nug, anis=[float(rng.choice(ANIS)) for _ in range(sd)])
+    dim = int(rng.integers(2, 4)) if kind == "IncomprRandMeth" else int(rng.integers(1, 4))
+    cls = str(rng.choice(CLS_PPF)) if (kind == "Fourier" or rng.random() < 0.7) else str(rng.choice(CLS_MCMC))
+    return build_model(gs, rand_spec(rng, dim, cls=cls, nugget=nug))
+
+
+def _hist_change(gs, rng, srf, kind, family, nug, trace):
+    """one in-place change of ONE attribute of the field's model (clearly different or identical values)"""
+    m = srf.model
+    attrs = ["var", "nugget", "len_scale", "rescale", "anis"]
+    if family == "plain":
+        attrs += ["len_scale_list", "angles", "opt", "opt"]
+    attr = str(rng.choice(attrs))
+    k = int(rng.integers(0, 6))
+    if attr == "nugget":
+        val = [0.4, 0.7, 0.2][k % 3] if nug else 0.0
+        m.nugget = val
+    elif attr == "rescale":
+        val = [1.0, 2.0, 0.5][k % 3]
+        m.rescale = val
+    elif attr == "len_scale_list" and m.dim > 1:
+        val = [LEN[(k + i) % 3] for i in range(m.dim)]
+        val[0] = max(val)                       # main axis longest: anisotropy ratios <= 1
+        m.len_scale = val
+    elif attr == "anis" and family != "plain":
+        if len(np.atleast_1d(m.anis)) == 0:
+            m.var = VAR[k % 3]
+            val = "var"
+        else:
+            val = [float([0.5, 2.0, 1.0][(k + i) % 3]) for i in range(len(np.atleast_1d(m.anis)))]
+            m.anis = val
+    elif attr == "len_scale" and family == "latlon":
+        val = [0.3, 1.0, 0.6][k % 3]
+        m.len_scale = val
+    else:
+        val = k
+        apply_mod(m, attr if attr != "len_scale_list" else "len_scale", k)
+    trace.append(["mod", attr, val if not isinstance(val, np.ndarray) else val.tolist()])
+
+
+def gen_settings(srf, kind):
+    g = srf.generator
+    if kind == "Fourier":
+        return dict(period=[float(x) for x in g.period], mode_no=[int(x) for x in g.mode_no])
+    return dict(mode_no=int(g.mode_no), sampling=g.sampling)
+
+
+def probe_srf_history(ctx, gs, rng, reps):
+    """GENERAL history probe (implementation only).  Random operation sequences on ONE SRF object:
+    srf(pos) / srf() and srf(seed=) on STORED positions / set_pos / mesh-type switches / in-place change of every model
+    attribute (var, nugget, len_scale scalar and list, anis incl. the time axis, angles, rescale, optional arguments) /
+    model replacement (incl. other geo_scale) / generator attributes (mode_no, sampling, period, seed setter, reset_seed).
+    After EVERY call the result is compared with a SHADOW object: a fresh SRF(copy of the present model, present seed,
+    present generator settings), rebuilt whenever the present parameters differ from those of the last call (the real
+    generator must then have re-sampled and restarted its nugget stream) and otherwise called in lock step (so that with a
+    nugget the same sub-stream is due).  Same positions, same mesh type => bitwise equality, also for rotated models."""
+    for rep in range(reps):
+        kind = ["RandMeth", "Fourier", "IncomprRandMeth", "RandMeth"][rep % 4]
+        nug = [0.0, 0.4][(rep // 4) % 2]
+        family = "plain"
+        if kind == "RandMeth" and rng.random() < 0.3:
+            family = str(rng.choice(["latlon", "temporal"]))
+        model = _hist_model(gs, rng, kind, family, nug)
+        seed = int(rng.choice([7, 424242, 20170519]))
+        fdim = model.field_dim
+        if kind == "Fourier":
+            kw = dict(period=[float(rng.choice(PERIODS)) for _ in range(model.dim)], mode_no=[4] * model.dim)
+        else:
+            kw = dict(mode_no=int(rng.choice([6, 12])))
+        srf = gs.SRF(model, generator=kind, seed=seed, **kw)
+        trace = [["init", kind, repr(model), kw, seed]]
+        shadow, last_key = None, None
+        stored = False
+        n_calls = 0
+        failed = False
+        for step in range(int(rng.integers(5, 12))):
+            r = rng.random()
+            call = None
+            if r < 0.22:
+                pos, mt = _hist_positions(rng, family, fdim, bool(rng.random() < 0.4))
+                sd = None if rng.random() < 0.6 else int(rng.choice([7, 424242, 424243, 20170519]))
+                call = ("pos", pos, mt, sd)
+            elif r < 0.42 and stored:
+                sd = None if rng.random() < 0.5 else int(rng.choice([7, 424242, 424243, 20170519]))
+                call = ("stored", None, None, sd)
+            elif r < 0.50:
+                pos, mt = _hist_positions(rng, family, fdim, bool(rng.random() < 0.5))
+                srf.set_pos(pos, mt)
+                stored = True
+                trace.append(["set_pos", mt, [[C.fhex(x) for x in p] for p in pos]])
+            elif r < 0.78:
+                _hist_change(gs, rng, srf, kind, family, nug, trace)
+            elif r < 0.84:
+                m2 = _hist_model(gs, rng, kind, family, nug)
+                if m2.field_dim == fdim and (kind != "Fourier" or m2.dim == srf.model.dim):
+                    srf.model = m2
+                    trace.append(["setmodel", repr(m2)])
+            elif r < 0.92:
+                g = srf.generator
+                # a setter that changes a value re-samples at once (the Fourier grid setters always do): the streams
+                # restart even if a later setter restores the old value before the next call
+                if kind == "Fourier":
+                    last_key = None
+                    if rng.random() < 0.5:
+                        p = [float(rng.choice(PERIODS)) for _ in range(srf.model.dim)]
+                        g.period = p
+                        trace.append(["period", p])
+                    else:
+                        mn = [int(rng.choice([2, 4, 6])) for _ in range(srf.model.dim)]
+                        g.mode_no = mn
+                        trace.append(["mode_no", mn])
+                elif rng.random() < 0.5:
+                    n = int(rng.choice([6, 12, 20]))
+                    if n != g.mode_no:
+                        last_key = None
+                    g.mode_no = n
+                    trace.append(["mode_no", n])
+                else:
+                    sm = str(rng.choice(["auto", "mcmc"]))
+                    if sm != g.sampling:
+                        last_key = None
+                    g.sampling = sm
+                    trace.append(["sampling", sm])
+            else:
+                g = srf.generator
+                if rng.random() < 0.5:
+                    sd = int(rng.choice([7, 424242, 424243]))
+                    if sd != int(g.seed):
+                        last_key = None
+                    g.seed = sd
+                    trace.append(["gen.seed", sd])
+                else:
+                    g.reset_seed()
+                    last_key = None         # an explicit reset restarts the streams whatever the parameters
+                    trace.append(["gen.reset_seed"])
+            if call is None:
+                continue
+            how, pos, mt, sd = call
+            eff_seed = int(srf.generator.seed) if sd is None else sd
+            key = (enc_model(srf.model, {}, "auto")[1:], repr(srf.model.name), bool(srf.model.latlon), float(srf.model.geo_scale),
+                   eff_seed, json.dumps(gen_settings(srf, kind), sort_keys=True))
+            if key != last_key:
+                shadow = gs.SRF(copy.deepcopy(srf.model), generator=kind, seed=eff_seed, **gen_settings(srf, kind))
+                last_key = key
+            kws = {} if sd is None else dict(seed=sd)
+            store = [True, "other", False][int(rng.integers(3))]
+            try:
+                if how == "pos":
+                    got = np.array(srf(pos, mesh_type=mt, store=store, **kws))
+                    stored = True
+                else:
+                    got = np.array(srf(store=store, **kws))
+                cur_pos, cur_mt = tuple(np.array(p, dtype=float) for p in srf.pos), srf.mesh_type
+                want = np.array(shadow(cur_pos, mesh_type=cur_mt))
+            except Exception as e:      # noqa: BLE001
+                ctx.violation("probe: SRF history (%s)" % kind, "unexpected %s: %s" % (type(e).__name__, e),
+                              dict(generator=kind, family=family, trace=trace), key="srf-history:%s:exception" % kind)
+                failed = True
+                break
+            n_calls += 1
+            trace.append(["call", how, cur_mt, None if sd is None else sd, [[C.fhex(x) for x in p] for p in cur_pos]])
+            pos_ok = how != "pos" or all(C.bit_equal(a, b) for a, b in zip(cur_pos, pos))
+            if not (C.bit_equal(got, want) and pos_ok):
+                ctx.violation("probe: SRF history vs fresh object with the present parameters (%s, %s, %s, nugget %s)" % (kind, family, cur_mt, nug),
+                              "call %d (%s%s) of a history on one SRF object differs from a freshly built SRF(copy of the present model, seed %d, %s) "
+                              "on the same positions%s" % (n_calls, "srf(pos)" if how == "pos" else "srf() on stored positions",
+                                                           "" if sd is None else ", seed=%d" % sd, eff_seed, gen_settings(srf, kind),
+                                                           " (lock-step nugget sub-stream)" if nug else ""),
+                              dict(generator=kind, family=family, nugget=nug, trace=trace, present_model=repr(srf.model),
+                                   max_abs_diff=float(np.max(np.abs(got - want))) if got.shape == want.shape else None),
+                              key="srf-history:%s:%s" % (kind, "nugget" if nug else "nugget-free"))
+                failed = True
+                break
+        ctx.count(("srf-history", kind, family, nug, n_calls) if n_calls else None, n=max(1, n_calls),
+                  hist=dict(stage="probe:srf-history", generator=kind, family=family, nugget=nug))
+        for t in trace[1:]:
+            ctx.dist.setdefault("srf_history_op", {})
+            kk = t[0] + (":" + str(t[1]) if t[0] in ("mod", "call") else "")
+            ctx.dist["srf_history_op"][kk] = ctx.dist["srf_history_op"].get(kk, 0) + 1
+
+
 def probe_equal_histories(ctx, gs, rng, reps):
     """equal call histories, the seeds held by different objects => equal nugget noise"""
     for rep in range(reps):
@@ -1330,7 +1535,7 @@ def run(ctx, only_plan=None):
                 "same object/distinct objects/numpy ints/None/NaN; in-place var, len_scale, nugget, anis, angles, optional-argument changes and "
                 "restorations; neighbouring large seeds s+1, s-1, s+7, s*(1+3e-6) and int / new object / np.int64 / np.int32 holders; model replacement incl. dimension change; mode_no/period/seed setters, reset_seed, update) compared step by step "
                 "with the extracted state machine, (b) locality probes (permutation, subset, single point, batching, store name, structured, "
-                "meshio incl. every kind of `direction` on 2-D/3-D meshes, points and centroids, returned and stored data), (c) successive calls on nearly-equal positions (UTM-like offsets, staggered grids, 1e-9 magnitudes) vs fresh, history-vs-fresh (incl. optional-argument-only changes), seed-change-vs-fresh (SRF call / seed setter / update routes) and equal-history probes, (d) numeric ties.  Non-trivial = a history with >= 1 generator-level "
+                "meshio incl. every kind of `direction` on 2-D/3-D meshes, points and centroids, returned and stored data), (c) successive calls on nearly-equal positions (UTM-like offsets, staggered grids, 1e-9 magnitudes) vs fresh, history-vs-fresh (incl. optional-argument-only changes), seed-change-vs-fresh (SRF call / seed setter / update routes) and equal-history probes, (d) general SRF histories (stored positions, set_pos, mesh-type switches, every model attribute incl. len_scale lists / rescale / time axis / lat-lon geo_scale, generator attributes incl. sampling) compared after every call with a lock-step shadow object built fresh from the present parameters, with and without nugget, (e) numeric ties.  Non-trivial = a history with >= 1 generator-level "
                 "operation or a probe with >= 2 points; distinct = distinct (stage, generator, dim, shape/length) keys")
     ctx.trusted = [
         "Coq 8.16.1 kernel (coqc); no native_compute",
@@ -1407,6 +1612,7 @@ def run(ctx, only_plan=None):
         probe_mesh(ctx, gs, rng, 600 if thorough else 200)
         probe_seed_change(ctx, gs, rng, 480 if thorough else 150)
         probe_positions(ctx, gs, rng, 600 if thorough else 150)
+        probe_srf_history(ctx, gs, rng, 1200 if thorough else 300)
         probe_history_vs_fresh(ctx, gs, rng, 450 if thorough else 120)
         probe_equal_histories(ctx, gs, rng, 150 if thorough else 45)
         ctx.notes.append("history correspondence: %s" % json.dumps(STATS))
